@@ -14,6 +14,10 @@ the visited extents (start, end, kind), the deviation tags and a summary of the 
 A difference is a violation dict like those of c05spec: `nofail=True` unless one of the walkers rejects the file (then the history
 that produced the file is the failing input).
 
+Files the Python walker cannot decode at all (new-style groups: h5spec raises Unsupported) are not part of this comparison: for them the
+Coq walker is the JUDGE (coq_judge -> Model/WalkJudgeTie.v walkj_obs; the gate is tools/props/c05.py judge_dense: accepted, walk_ok,
+deviation tags listed, tree summary incl. the link lists of the dense groups == the logical oracle).
+
 Use:  t = WalkTie(ctx); t.offer(case, res) for every judged file (res = c05spec.walk / h5spec.walk result); t.finish() ->
 (violations, coverage);  run_walk(ctx, files) does the three steps for a list of (case, res).
 """
@@ -30,7 +34,8 @@ NOT_FOLLOWED = {"gcol"}
 SKIP_KINDS = {"fheap-iblock"}
 XTAGS = {"sb-eof-stale": 101, "refcount-too-high": 102, "refcount-too-low": 103, "snod-unsorted": 104, "btree1-group-keys": 105,
          "btree1-node-truncated": 106, "snod-node-truncated": 107, "fheap-offset-excludes-block-prefix": 108,
-         "btree2-attr-type-5": 109}
+         "btree2-attr-type-5": 109, "group-dataspace-msg": 111, "dense-link-private-layout": 112, "btree2-link-id-truncated": 113,
+         "refcount-ignores-dense-links": 114}
 TAGS = dict(c05spec.TAGS, **XTAGS)
 TAGNAME = {v: k for k, v in TAGS.items()}
 # tags raised only inside structures the Coq walker does not follow / by clauses it does not have
@@ -136,6 +141,66 @@ def coq_walk(datas, workers=12, shard_bytes=120000):
         for i, l in zip(sh, r):
             out[i] = parse_obs(l)
     return out
+
+
+# ----------------------------------------------------------------------------- the Coq walker as the judge (files tools/h5spec.py cannot decode)
+
+JHEADER = "From HV Require Import Base.Prelude Model.RefWalkTie Model.WalkJudgeTie.\n"
+
+
+def parse_judge(l):
+    """walkj_obs -> dict (see Model/WalkJudgeTie.v)"""
+    if l[0] == 0:
+        return dict(accept=False, reason=l[1])
+    code = l[0]
+    d = dict(accept=True, walk_ok=bool(code & 4), disjoint=bool(code & 8))
+    p = [1]
+    def take():
+        v = l[p[0]]
+        p[0] += 1
+        return v
+    def take_bytes():
+        n = take()
+        b = bytes(l[p[0]:p[0] + n])
+        p[0] += n
+        return b
+    d["version"], d["eof"] = take(), take()
+    d["extents"] = sorted((take(), take(), take()) for _ in range(take()))
+    d["tags"] = {take() for _ in range(take())}
+    d["tree"] = []
+    for _ in range(take()):
+        o = dict(addr=take(), kind=take(), cls=take(), size=take(), bits=take(), space=take(), layout=take())
+        o["dims"] = [take() for _ in range(take())]
+        o["path"] = take_bytes()
+        o["attrs"] = [take_bytes() for _ in range(take())]
+        o["links"] = [(take(), take_bytes()) for _ in range(take())]
+        o["targets"] = [take() for _ in range(take())]
+        d["tree"].append(o)
+    if p[0] != len(l):
+        raise RuntimeError("walkj_obs: %d numbers left over" % (len(l) - p[0]))
+    return d
+
+
+def _judge_part(args):
+    from props import c06walk
+    k, datas = args
+    v = [JHEADER, "Open Scope string_scope.\nOpen Scope N_scope.\n"]
+    v.append("Definition fs : list (list piece) := [%s].\n" % ";\n".join(c06walk.pieces_literal(d)[0] for d in datas))
+    v.append("Definition r := Eval vm_compute in map walkj_pieces fs.\nPrint r.\n")
+    out = vlib.coq_eval("".join(v), "c05judge_%d" % k)
+    got = parse_nested(out, "r")
+    if len(got) != len(datas):
+        raise RuntimeError("c05judge: %d results for %d files:\n%s" % (len(got), len(datas), out[-1500:]))
+    return got
+
+
+def coq_judge(datas, workers=8):
+    """tolerant Coq walk of complete files (one coqc process per file: a dense group's heap block alone is 512 KiB) -> parsed walkj_obs"""
+    if not datas:
+        return []
+    with cf.ThreadPoolExecutor(workers) as ex:
+        res = list(ex.map(_judge_part, [(k, [d]) for k, d in enumerate(datas)]))
+    return [parse_judge(r[0]) for r in res]
 
 
 def py_extents_ok(fs, eof, l):
